@@ -226,7 +226,7 @@ func c20Keys(r *verifmc.Run, sys *c20Sys, tag string, asgs []c20Asg) []*c20Key {
 		cls := fmt.Sprintf("attrs=%d", k.nAttrs)
 		var err error
 		if pn, w := verifmc.Try(func() { k.sk, err = sys.msk.KeyGen(verifmc.NewDetReader("c20/key/"+asgs[i].name), asgs[i].attrs) }); pn || err != nil {
-			r.Violation("C20|SystemSecretKey.KeyGen|fails|"+cls, caseID, fmt.Sprintf("KeyGen for {%s}: %v %s", asgs[i].name, err, w), map[string]interface{}{"attributes": asgs[i].name})
+			c20Violation(r, "C20|SystemSecretKey.KeyGen|fails|"+cls, caseID, fmt.Sprintf("KeyGen for {%s}: %v %s", asgs[i].name, err, w), map[string]interface{}{"attributes": asgs[i].name})
 			keys[i] = nil
 			return
 		}
@@ -238,11 +238,11 @@ func c20Keys(r *verifmc.Run, sys *c20Sys, tag string, asgs []c20Asg) []*c20Key {
 				err = k.rt.UnmarshalBinary(append([]byte{}, b...))
 			}
 		}); pn || err != nil {
-			r.Violation("C20|AttributeKey.MarshalBinary|roundtrip-error|"+cls, caseID, fmt.Sprintf("key for {%s}: binary round trip: %v %s", asgs[i].name, err, w), map[string]interface{}{"attributes": asgs[i].name})
+			c20Violation(r, "C20|AttributeKey.MarshalBinary|roundtrip-error|"+cls, caseID, fmt.Sprintf("key for {%s}: binary round trip: %v %s", asgs[i].name, err, w), map[string]interface{}{"attributes": asgs[i].name})
 			return
 		}
 		if !k.sk.Equal(&k.rt) || !k.rt.Equal(&k.sk) {
-			r.Violation("C20|AttributeKey.MarshalBinary|roundtrip-not-equal|"+cls, caseID, fmt.Sprintf("key for {%s}: UnmarshalBinary(MarshalBinary()) is not Equal to the key", asgs[i].name), map[string]interface{}{"attributes": asgs[i].name})
+			c20Violation(r, "C20|AttributeKey.MarshalBinary|roundtrip-not-equal|"+cls, caseID, fmt.Sprintf("key for {%s}: UnmarshalBinary(MarshalBinary()) is not Equal to the key", asgs[i].name), map[string]interface{}{"attributes": asgs[i].name})
 			return
 		}
 		k.rtOK = true
@@ -309,7 +309,7 @@ func c20Groups(r *verifmc.Run, space string, forms []*abe.Node) []*c20Group {
 		s0 := abe.Print(f, abe.StyleFull)
 		p, err, pn := c20Parse(s0)
 		if pn != "" || err != nil {
-			r.Violation("C20|Policy.FromString|error/style=full|"+c20Class(f), "crypto|"+space+"|"+s0, fmt.Sprintf("FromString(%q): %v %s", s0, err, pn), map[string]interface{}{"policy": s0})
+			c20Violation(r, "C20|Policy.FromString|error/style=full|"+c20Class(f), "crypto|"+space+"|"+s0, fmt.Sprintf("FromString(%q): %v %s", s0, err, pn), map[string]interface{}{"policy": s0})
 			continue
 		}
 		c := c20Canon(p)
@@ -350,7 +350,7 @@ func c20RunGroup(r *verifmc.Run, sys *c20Sys, g *c20Group, gi int, keys []*c20Ke
 		for k, v := range extra {
 			payload[k] = v
 		}
-		r.Violation("C20|"+entry+"|"+fail+"|"+class, caseID, what, payload)
+		c20Violation(r, "C20|"+entry+"|"+fail+"|"+class, caseID, what, payload)
 	}
 	ct, seed, err, pn := c20Encrypt(&sys.pk, "c20/enc/"+g.space+"/"+g.canon, g.pol, msg)
 	if pn != "" || err != nil {
@@ -396,7 +396,7 @@ func c20RunGroup(r *verifmc.Run, sys *c20Sys, g *c20Group, gi int, keys []*c20Ke
 			if got {
 				fail = "succeeds-on-unsatisfied"
 			}
-			r.Violation("C20|"+entry+"|"+fail+"/"+format+"|"+c20Class(m.f), "crypto|"+g.space+"|"+rep.s0,
+			c20Violation(r, "C20|"+entry+"|"+fail+"/"+format+"|"+c20Class(m.f), "crypto|"+g.space+"|"+rep.s0,
 				fmt.Sprintf("policy %q (ciphertext made under the structurally identical %q, format %s, %d-byte message), attributes {%s}: %s = %v, reference evaluator says %v%s",
 					m.s0, rep.s0, format, len(msg), keys[ki].asg.name, entry, got, want[mi][ki], detail),
 				map[string]interface{}{"policy": m.s0, "encrypted_under": rep.s0, "attributes": keys[ki].asg.name, "format": format, "message_len": len(msg)})
@@ -489,6 +489,7 @@ type c20CryptoSpace struct {
 func TestVerifC20_crypto(t *testing.T) {
 	r := verifmc.Start(t, "C20", "crypto")
 	defer r.Finish()
+	defer c20Flush(r)
 	c20SelfCheck(t)
 	r.Rule("one Setup; every formula of the space is parsed and formulas are grouped by parsed policy structure; per group one ciphertext (messages of 0/1/1000 bytes in rotation) " +
 		"is decrypted with one key per assignment labels -> {absent} U values; every member formula is judged against its own reference verdict; " +
@@ -532,7 +533,7 @@ func TestVerifC20_crypto(t *testing.T) {
 				return
 			}
 			g := groups[gi]
-			c20RunGroup(r, sys, g, gi, keys, c20CryptoOpts{legacy: sp.legacy(gi, g), rtKeys: sp.rtKeys(gi, g), samples: gi%29 == 7})
+			c20RunGroup(r, sys, g, gi, keys, c20CryptoOpts{legacy: sp.legacy(gi, g), rtKeys: sp.rtKeys(gi, g), samples: gi == 7})
 		})
 	}
 	r.RequireCounter("decryptions_succeeded_with_exact_message", 100)
@@ -555,27 +556,27 @@ func c20KeyRoundTrips(r *verifmc.Run, sys *c20Sys) {
 			err = pk2.UnmarshalBinary(append([]byte{}, b...))
 		}
 	}); pn || err != nil {
-		r.Violation("C20|PublicKey.MarshalBinary|roundtrip-error|setup", "keys|pk", fmt.Sprintf("public key round trip: %v %s", err, w), nil)
+		c20Violation(r, "C20|PublicKey.MarshalBinary|roundtrip-error|setup", "keys|pk", fmt.Sprintf("public key round trip: %v %s", err, w), nil)
 		return
 	}
 	if !sys.pk.Equal(&pk2) {
-		r.Violation("C20|PublicKey.MarshalBinary|roundtrip-not-equal|setup", "keys|pk", "UnmarshalBinary(MarshalBinary()) of the public key is not Equal to it", nil)
+		c20Violation(r, "C20|PublicKey.MarshalBinary|roundtrip-not-equal|setup", "keys|pk", "UnmarshalBinary(MarshalBinary()) of the public key is not Equal to it", nil)
 	}
 	if pn, w := verifmc.Try(func() {
 		if b, err = sys.msk.MarshalBinary(); err == nil {
 			err = msk2.UnmarshalBinary(append([]byte{}, b...))
 		}
 	}); pn || err != nil {
-		r.Violation("C20|SystemSecretKey.MarshalBinary|roundtrip-error|setup", "keys|msk", fmt.Sprintf("system secret key round trip: %v %s", err, w), nil)
+		c20Violation(r, "C20|SystemSecretKey.MarshalBinary|roundtrip-error|setup", "keys|msk", fmt.Sprintf("system secret key round trip: %v %s", err, w), nil)
 		return
 	}
 	if !sys.msk.Equal(&msk2) {
-		r.Violation("C20|SystemSecretKey.MarshalBinary|roundtrip-not-equal|setup", "keys|msk", "UnmarshalBinary(MarshalBinary()) of the system secret key is not Equal to it", nil)
+		c20Violation(r, "C20|SystemSecretKey.MarshalBinary|roundtrip-not-equal|setup", "keys|msk", "UnmarshalBinary(MarshalBinary()) of the system secret key is not Equal to it", nil)
 	}
 	// the round-tripped pair must interoperate with the original one, both ways
 	var pol Policy
 	if err := pol.FromString("(a:1 and not b:1)"); err != nil {
-		r.Violation("C20|Policy.FromString|error/style=full|leaves=2,not=leaf", "keys|interop", err.Error(), nil)
+		c20Violation(r, "C20|Policy.FromString|error/style=full|leaves=2,not=leaf", "keys|interop", err.Error(), nil)
 		return
 	}
 	var at Attributes
@@ -599,7 +600,7 @@ func c20KeyRoundTrips(r *verifmc.Run, sys *c20Sys) {
 			}
 			st, detail = c20Decrypt(&sk, ct, msg)
 		}); pn || err != nil || st != c20DecOK {
-			r.Violation("C20|PublicKey.MarshalBinary|roundtripped-keys-do-not-interoperate|"+x.name, "keys|interop",
+			c20Violation(r, "C20|PublicKey.MarshalBinary|roundtripped-keys-do-not-interoperate|"+x.name, "keys|interop",
 				fmt.Sprintf("%s (' = after MarshalBinary/UnmarshalBinary): encrypt/keygen/decrypt: err=%v outcome=%d %s %s", x.name, err, st, detail, w), nil)
 		}
 		r.Eval(3)
@@ -611,6 +612,7 @@ func c20KeyRoundTrips(r *verifmc.Run, sys *c20Sys) {
 func TestVerifC20_messages(t *testing.T) {
 	r := verifmc.Start(t, "C20", "messages")
 	defer r.Finish()
+	defer c20Flush(r)
 	c20SelfCheck(t)
 	r.Rule("policy (a:1 and not b:1); one satisfying key {a=1,b=2} and one non-satisfying key {a=1,b=1}; every message length of the list; " +
 		"the satisfying key must return exactly the message, the other must fail; legacy framing too when it fits 16-bit lengths; non-trivial = distinct (length, format)")
@@ -637,7 +639,7 @@ func TestVerifC20_messages(t *testing.T) {
 	r.Set("lengths", fmt.Sprintf("0..%d and %v", top, lens[top+1:]))
 	var pol Policy
 	if err := pol.FromString("(a:1 and not b:1)"); err != nil {
-		r.Violation("C20|Policy.FromString|error/style=full|leaves=2,not=leaf", "messages|parse", err.Error(), nil)
+		c20Violation(r, "C20|Policy.FromString|error/style=full|leaves=2,not=leaf", "messages|parse", err.Error(), nil)
 		return
 	}
 	asgs := []c20Asg{{m: map[string]string{"a": "1", "b": "2"}, name: "a=1,b=2"}, {m: map[string]string{"a": "1", "b": "1"}, name: "a=1,b=1"}}
@@ -648,6 +650,7 @@ func TestVerifC20_messages(t *testing.T) {
 	if keys[0] == nil || keys[1] == nil {
 		return
 	}
+	var smp sync.Map
 	verifmc.ParallelFor(len(lens), func(li int) {
 		n := lens[li]
 		caseID := fmt.Sprintf("messages|len=%d", n)
@@ -661,7 +664,7 @@ func TestVerifC20_messages(t *testing.T) {
 		}
 		ct, seed, err, pn := c20Encrypt(&sys.pk, fmt.Sprintf("c20/msg/%d", n), &pol, msg)
 		if pn != "" || err != nil {
-			r.Violation("C20|PublicKey.Encrypt|fails|"+cls, caseID, fmt.Sprintf("Encrypt of a %d-byte message: %v %s", n, err, pn), map[string]interface{}{"len": n})
+			c20Violation(r, "C20|PublicKey.Encrypt|fails|"+cls, caseID, fmt.Sprintf("Encrypt of a %d-byte message: %v %s", n, err, pn), map[string]interface{}{"len": n})
 			return
 		}
 		r.Eval(1)
@@ -684,7 +687,7 @@ func TestVerifC20_messages(t *testing.T) {
 			r.Eval(1)
 			r.Outcome(fmt.Sprintf("%s/satisfying-key/outcome=%d", f.name, st))
 			if st != c20DecOK {
-				r.Violation("C20|AttributeKey.Decrypt|message-not-returned/"+f.name+"|"+cls, caseID,
+				c20Violation(r, "C20|AttributeKey.Decrypt|message-not-returned/"+f.name+"|"+cls, caseID,
 					fmt.Sprintf("%d-byte message, %s format, satisfying key: outcome %d %s", n, f.name, st, detail), map[string]interface{}{"len": n, "format": f.name})
 			} else {
 				r.Count("messages_returned_exactly", 1)
@@ -692,16 +695,21 @@ func TestVerifC20_messages(t *testing.T) {
 			st, detail = c20Decrypt(&keys[1].sk, f.ct, msg)
 			r.Eval(1)
 			if st != c20DecFail {
-				r.Violation("C20|AttributeKey.Decrypt|succeeds-on-unsatisfied/"+f.name+"|"+cls, caseID,
+				c20Violation(r, "C20|AttributeKey.Decrypt|succeeds-on-unsatisfied/"+f.name+"|"+cls, caseID,
 					fmt.Sprintf("%d-byte message, %s format, NON-satisfying key {a=1,b=1}: outcome %d %s", n, f.name, st, detail), map[string]interface{}{"len": n, "format": f.name})
 			} else {
 				r.Count("refused_for_unsatisfying_key", 1)
 			}
 		}
 		if n == 5 || n == 70000 {
-			r.Sample(map[string]interface{}{"message_len": n, "ciphertext_len": len(ct), "formats": len(forms)})
+			smp.Store(n, map[string]interface{}{"message_len": n, "ciphertext_len": len(ct), "formats": len(forms)})
 		}
 	})
+	for _, n := range []int{5, 70000} {
+		if v, ok := smp.Load(n); ok {
+			r.Sample(v)
+		}
+	}
 	r.RequireCounter("messages_returned_exactly", int64(len(lens)))
 	r.RequireCounter("legacy_ciphertexts", int64(top))
 	if !r.Thorough() {
@@ -756,6 +764,7 @@ type c20AlterSubject struct {
 func TestVerifC20_alter(t *testing.T) {
 	r := verifmc.Start(t, "C20", "alter")
 	defer r.Finish()
+	defer c20Flush(r)
 	c20SelfCheck(t)
 	r.Rule("per subject ciphertext (v1.3.8 generated, legacy = committed fixture ciphertext_v137 with its fixture key): flip one bit, Decrypt; allowed outcomes: error, or exactly the " +
 		"original message; a different message is a violation (a panic is recorded as an outcome and left to C10); non-trivial = distinct (subject, bit)")
@@ -805,11 +814,11 @@ func TestVerifC20_alter(t *testing.T) {
 		s := s
 		st, detail := c20Decrypt(s.key, s.ct, s.msg)
 		if s.sat && st != c20DecOK {
-			r.Violation("C20|AttributeKey.Decrypt|unaltered-ciphertext-not-decrypted|"+s.name, "alter|"+s.name+"|base", fmt.Sprintf("%s: the unaltered ciphertext is not decrypted: outcome %d %s", s.name, st, detail), nil)
+			c20Violation(r, "C20|AttributeKey.Decrypt|unaltered-ciphertext-not-decrypted|"+s.name, "alter|"+s.name+"|base", fmt.Sprintf("%s: the unaltered ciphertext is not decrypted: outcome %d %s", s.name, st, detail), nil)
 			continue
 		}
 		if !s.sat && st != c20DecFail {
-			r.Violation("C20|AttributeKey.Decrypt|succeeds-on-unsatisfied/"+s.format+"|"+s.name, "alter|"+s.name+"|base", fmt.Sprintf("%s: non-satisfying key: outcome %d %s", s.name, st, detail), nil)
+			c20Violation(r, "C20|AttributeKey.Decrypt|succeeds-on-unsatisfied/"+s.format+"|"+s.name, "alter|"+s.name+"|base", fmt.Sprintf("%s: non-satisfying key: outcome %d %s", s.name, st, detail), nil)
 			continue
 		}
 		bits, desc := c20AlterBits(len(s.ct), s.mode, s.off, s.lo, s.hi, s.stride)
@@ -836,7 +845,7 @@ func TestVerifC20_alter(t *testing.T) {
 			r.Count("alterations_"+s.format, 1)
 			switch {
 			case pn:
-				r.Outcome("panic:" + verifmc.PanicClass(w))
+				r.Outcome("panic:" + verifmc.PanicClass(w) + "@" + verifmc.PanicSite(w))
 				r.Count("alterations_panicked_(left_to_C10)", 1)
 			case err != nil:
 				r.Count("alterations_refused", 1)
@@ -852,7 +861,7 @@ func TestVerifC20_alter(t *testing.T) {
 				} else if bit/8 < 46 {
 					region = "prefix+id"
 				}
-				r.Violation("C20|AttributeKey.Decrypt|altered-ciphertext-decrypted-to-different-message/"+s.format+"|"+region, caseID,
+				c20Violation(r, "C20|AttributeKey.Decrypt|altered-ciphertext-decrypted-to-different-message/"+s.format+"|"+region, caseID,
 					fmt.Sprintf("%s: bit %d (byte %d of %d) flipped: Decrypt returned %d bytes %s, the message was %s", s.name, bit, bit/8, len(s.ct), len(pt), verifmc.Hex(pt), verifmc.Hex(s.msg)),
 					map[string]interface{}{"subject": s.name, "bit": bit, "ciphertext": verifmc.FullHex(s.ct)})
 			}
